@@ -29,7 +29,7 @@ COMPONENTS = {'real': ['ikesacontroller.py (dispatch_message, process_expire, ma
 ASSUMPTIONS = ['which IkeSa object received a datagram is observed by a call-through wrapper on IkeSa.process_message',
                'table contents are read from the daemon and compared with the status query (public channel) each time one is issued']
 EXPECT_REACH = ['routed', 'unknown_spi', 'init_request_new_sa', 'status_queries', 'multi_sa_table', 'rekeyed_once',
-                'expire_routed', 'expire_unknown', 'forge.swap', 'forge.unknown', 'forge.zero', 'forge.init_odd', 'dup_rekey_or_delete']
+                'expire_routed', 'expire_unknown', 'forge.swap', 'forge.unknown', 'forge.zero', 'forge.init_odd', 'forge.init_broken', 'dup_rekey_or_delete']
 
 
 class RouteProbe:
@@ -316,7 +316,7 @@ def generate(seed, tier):
         ops.append({'t': round(r.uniform(1.0, T), 3), 'op': 'call', 'name': 'status', 'node': r.choice(names)})
     for _ in range(r.randint(2, 10)):
         ops.append({'t': round(r.uniform(1.0, T), 3), 'op': 'call', 'name': 'spiforge', 'node': r.choice(names),
-                    'kind': r.choice(['swap', 'unknown', 'zero', 'flagflip', 'one_known', 'replay_dead', 'init_odd']),
+                    'kind': r.choice(['swap', 'unknown', 'zero', 'flagflip', 'one_known', 'replay_dead', 'init_odd', 'init_broken']),
                     'pick': r.randrange(1000), 'seed': r.randrange(2 ** 31)})
     for _ in range(r.randint(0, 4)):
         ops.append({'t': round(r.uniform(1.0, T), 3), 'op': 'call', 'name': 'kexpire', 'node': r.choice(names),
@@ -393,6 +393,24 @@ def run(scenario):
                     b[19] &= ~0x08
                 if what == 'spir':
                     b[8:16] = bytes(rr.getrandbits(8) for _ in range(8))
+            elif kind == 'init_broken':
+                # an IKE_SA_INIT request whose header is fine and whose payload chain is not (cut short, or an unknown payload marked critical):
+                # the responder IKE_SA made for it must not stay in the table
+                inits = [x for x in wire.sent if x['h'] is not None and x['h']['exch'] == 34 and not x['h']['R'] and x['dst'] in node.udp]
+                if not inits:
+                    return
+                rec = inits[-1 - (op['pick'] % min(len(inits), 4))]
+                b = bytearray(rec['data'])
+                b[0:8] = bytes(rr.getrandbits(8) for _ in range(8))
+                how = rr.choice(['cut', 'cut', 'critical_unknown', 'first_length'])
+                if how == 'cut' and len(b) > 40:
+                    b = b[:len(b) - rr.randint(1, 9)]
+                elif how == 'critical_unknown':
+                    b[16] = rr.choice([49, 200, 255])
+                    b[29] |= 0x80
+                else:
+                    b[30:32] = struct.pack('>H', rr.choice([3, 0xFFFF, len(b)]))
+                b[24:28] = struct.pack('>L', len(b))
             elif kind == 'replay_dead':
                 live = {sa.my_spi for sa in node.ike_sas()}
                 old = [x for x in to_me if x['h']['exch'] != 34 and (x['h']['spi_r'] if x['h']['I'] else x['h']['spi_i']) not in live]
